@@ -167,8 +167,9 @@ partial def runModel (rw : Bool) (v : Buf.View) (st : MSt) : MSt :=
         | .ok child =>
           let st' := runModel isMut child (st.emit rest "[")
           if st'.halted then st' else runModel rw v { st' with out := st'.out.push "]" }
-  | "asr" :: rest | "asm" :: rest =>
-    let isMut := st.toks.head? == some "asm"
+  | "asr" :: rest | "asm" :: rest | "asri" :: rest | "asmi" :: rest =>
+    -- the wrapper's trait impl and the inherent method are the same model function
+    let isMut := st.toks.head? == some "asm" || st.toks.head? == some "asmi"
     if isMut && !rw then st.broken "asm on a read-only view" else
     match Buf.asSlice v with
     | .panic m => st.halt m
@@ -238,7 +239,20 @@ partial def runModel (rw : Bool) (v : Buf.View) (st : MSt) : MSt :=
           | .ok r => runModel rw v (st.emitRoot rest "ok" r)
           | .panic m => st.halt m
       | _ => st.broken "copys"
-    | "copyb" =>
+    | "copym" =>
+      match nats 8 rest with
+      | some ([w, h, s, n, l, t, r, b], rest) =>
+        match Buf.sliceNew w h s n with
+        | .panic m => st.halt m
+        | .ok srcRoot =>
+          match Buf.slice srcRoot (Buf.Rect.ofCorners l t r b) with
+          | .panic m => st.halt m
+          | .ok src =>
+            match Buf.copyFrom st.root v ((List.range n).map (5000 + ·)) src with
+            | .ok r => runModel rw v (st.emitRoot rest "ok" r)
+            | .panic m => st.halt m
+      | _ => st.broken "copym"
+    | "copyb" | "copybv" =>
       match nats 2 rest with
       | some ([w, h], rest) =>
         match Buf.buf2NewWith w h (fun x y => 7000 + 100 * y + x) with
@@ -474,7 +488,23 @@ partial def runSpec (rw : Bool) (p : Win) (pitch : Nat) (st : SSt) : SSt :=
           let f : Nat → Nat → Nat := if op == "fill" then fun _ _ => a else fun x y => (a + y * 1000 + x) % u32Lim
           runSpec rw p pitch (next rest (writeAll st.g p f))
         | _ => st.halt
-      | "copys" | "copyb" =>
+      | "copym" =>
+        match nats 8 rest with
+        | some ([w, h, s, n, l, t, r, b], rest) =>
+          let srcWin : Win := { x0 := 0, y0 := 0, w := w, h := h }
+          let src : Grid Nat := ofFlat s ((List.range n).map (5000 + ·))
+          if !(holds w h s n) then
+            if isPanic tok then legit else st.failWith "ctor-accepts-invalid" s!"MutSlice2::new(({w},{h}),{s},len {n}) accepted"
+          else if !(srcWin.validRect l t r b) then
+            if isPanic tok then legit else st.failWith "invalid-rect-accepted" s!"source slice [{l},{r})x[{t},{b}) outside {w}x{h} accepted"
+          else if r - l != p.w || b - t != p.h then
+            if isPanic tok then legit else st.failWith "copy-dims-mismatch-accepted" s!"copy_from {r - l}x{b - t} into {p.w}x{p.h} gave {tok}"
+          else if tok != "ok" then st.failWith "inbounds-panic" s!"{op} matching dims gave {tok}"
+          else
+            let g' := writeAll st.g p (fun x y => (cell? src (l + x) (t + y)).getD 0)
+            runSpec rw p pitch (next rest g')
+        | _ => st.halt
+      | "copys" | "copyb" | "copybv" =>
         match nats (if op == "copys" then 4 else 2) rest with
         | some (w :: h :: more, rest) =>
           let s := if op == "copys" then more.headD 0 else w
@@ -519,9 +549,9 @@ partial def runSpec (rw : Bool) (p : Win) (pitch : Nat) (st : SSt) : SSt :=
               let st := st.tag "invalid-rect"
               if isPanic tok then legit
               else st.failWith "invalid-rect-accepted" s!"slice [{l},{r})x[{t},{b}) outside {p.w}x{p.h} accepted"
-      | "asm" | "asr" =>
+      | "asm" | "asr" | "asmi" | "asri" =>
         if tok == "[" then
-          let st2 := runSpec (op == "asm") p pitch { st with toks := rest, impl := impl, depth := st.depth + 1 }
+          let st2 := runSpec (op == "asm" || op == "asmi") p pitch { st with toks := rest, impl := impl, depth := st.depth + 1 }
           if st2.stop then st2 else
           match st2.impl with
           | "]" :: impl2 => runSpec rw p pitch { st2 with impl := impl2, depth := st.depth }
